@@ -19,13 +19,17 @@ import (
 // needed for that (alt:ALL differs from alt:ALL-<sig>). Any other wrong answer on
 // the same input is a VIOLATION.
 var quirkBySig = map[string]om.Quirks{
-	"c08-result-holes-undefined":    {ResultHolesUndefined: true},
-	"c08-splice-noargs-deletes-all": {SpliceNoArgsDeletesAll: true},
-	"c08-reduce-only-holes":         {ReduceOnlyHolesUndefined: true},
-	"c08-reduceright-string-index":  {ReduceRightStringIndex: true},
-	"c08-lastindexof-clamp":         {LastIndexOfClamp: true},
-	"c08-index-parseint":            {ArrayIndexParseInt: true},
-	"c08-array-length-same-value":   {ArrayLengthSameValueRejects: true},
+	"c08-result-holes-undefined":     {ResultHolesUndefined: true},
+	"c08-splice-noargs-deletes-all":  {SpliceNoArgsDeletesAll: true},
+	"c08-reduce-only-holes":          {ReduceOnlyHolesUndefined: true},
+	"c08-reduceright-string-index":   {ReduceRightStringIndex: true},
+	"c08-lastindexof-clamp":          {LastIndexOfClamp: true},
+	"c08-index-parseint":             {ArrayIndexParseInt: true},
+	"c08-array-length-same-value":    {ArrayLengthSameValueRejects: true},
+	"c08-reverse-delete-first":       {ReverseDeleteFirst: true},
+	"c08-join-separator-first":       {JoinSeparatorFirst: true},
+	"c08-lastindexof-converts-empty": {LastIndexOfConvertsOnEmpty: true},
+	"c08-callable-before-length":     {CallableBeforeLength: true},
 }
 
 func merge(a, b om.Quirks) om.Quirks {
@@ -38,6 +42,10 @@ func merge(a, b om.Quirks) om.Quirks {
 		LastIndexOfClamp:            a.LastIndexOfClamp || b.LastIndexOfClamp,
 		ArrayIndexParseInt:          a.ArrayIndexParseInt || b.ArrayIndexParseInt,
 		ArrayLengthSameValueRejects: a.ArrayLengthSameValueRejects || b.ArrayLengthSameValueRejects,
+		ReverseDeleteFirst:          a.ReverseDeleteFirst || b.ReverseDeleteFirst,
+		JoinSeparatorFirst:          a.JoinSeparatorFirst || b.JoinSeparatorFirst,
+		LastIndexOfConvertsOnEmpty:  a.LastIndexOfConvertsOnEmpty || b.LastIndexOfConvertsOnEmpty,
+		CallableBeforeLength:        a.CallableBeforeLength || b.CallableBeforeLength,
 	}
 }
 
@@ -78,6 +86,13 @@ func buildQuirkList() {
 }
 
 func init() {
+	// sort is judged by its postcondition; the alternative models are alternative postconditions
+	engine.RegisterSignature("c08-sort-infinite-comparator", func(m *engine.Mismatch) bool {
+		return m.Aux != nil && m.Aux["method"] == "sort" && m.Aux["mag"] == "Infinity" && m.Aux["alt:infinite-is-zero"] == "ok"
+	})
+	engine.RegisterSignature("c08-sort-utf8-order", func(m *engine.Mismatch) bool {
+		return m.Aux != nil && m.Aux["method"] == "sort" && m.Aux["alt:utf8-order"] == "ok"
+	})
 	for sig := range quirkBySig {
 		sig := sig
 		engine.RegisterSignature(sig, func(m *engine.Mismatch) bool {
